@@ -15,6 +15,7 @@ EXPR = [
     'a, b', 'p ** q', 'i is not j', 'u in v', 'f(a)(b)', 'x.y.z', "b'b'", '1.5', '...', 'ñ', "'ü'",
     '(\n    ml_a +\n    ml_b\n)', 'f(a,\n  b)', '[\n    el1,  # c\n    el2,\n]', '(par)', '((dpar))', 'p\\\n+ q',
     'f(a,\n  b).attr', 'tbl[\n    k\n].val', '{\n    1: 2,\n}', '"""s\ns""".lower', 'g(\n).x.y', '0x1F',
+    '(ml_c +\n    ml_d)', '(ml_e or\n ml_f)', '(not\n ml_g)', '(ml_h\n .ml_i)',
 ]
 TARGET = ['t', 't.a', 't[i]', '(t1, t2)', '[t3, t4]', '*t5', 't6, t7', 'ü']
 STMT = [
